@@ -83,6 +83,11 @@ class XARecord:
                 continue
 
             if unused != b'\x00\x00\x00\x00\x00':
+                if offset == 0 and parse_str[:2] in (b'NM', b'SL', b'PX', b'TF', b'CE', b'RR', b'SP', b'ER', b'ES', b'PN', b'CL', b'PL', b'RE', b'SF', b'AL'):
+                    # What is here is a Rock Ridge entry, and the bytes that
+                    # look like the signature are part of it (the characters
+                    # of a name right after the header of an NM entry).
+                    return False
                 if offset == 0:
                     raise pycdlibexception.PyCdlibInvalidISO('Unused fields should be 0')
                 # The padded location is only a heuristic.  Bytes that merely
